@@ -55,6 +55,33 @@ mod verif_c16 {
         assert!(!unsafe { NATURAL_REACHED });
         kani::cover!(va < 0 && vb > 9); kani::cover!(va == 10 && vb == 9);
     }
+    /// float arguments sort by value; a name that parses as a float without a value (NaN) is ordered as text, like any
+    /// non-numeric name. str::parse::<f64> is replaced by a table: the names "p" and "q" parse to two symbolic floats.
+    static mut VALS: [f64; 2] = [0.0; 2];
+    fn float_table(s: &str) -> Result<f64, std::num::ParseFloatError> { Ok(unsafe { VALS[(s.as_bytes()[0] - b'p') as usize] }) }
+    fn by_first_byte(a: &str, b: &str) -> Ordering { a.as_bytes()[0].cmp(&b.as_bytes()[0]) }
+    #[kani::proof]
+    #[kani::solver(kissat)]
+    #[kani::unwind(6)]
+    #[kani::stub(<f64 as std::str::FromStr>::from_str, float_table)]
+    #[kani::stub(crate::util::sort::natural_cmp, by_first_byte)]
+    fn float_arg_names_by_value() {
+        // declared in the opposite of their textual order, so that text order and declaration order disagree
+        static NAMES: [&str; 2] = ["q", "p"];
+        let va: f64 = kani::any(); let vb: f64 = kani::any();
+        unsafe { VALS = [vb, va]; }          // "p" -> vb, "q" -> va: NAMES[0] has value va, NAMES[1] has value vb
+        let swap: bool = kani::any();
+        let (i, j) = if swap { (1, 0) } else { (0, 1) };
+        let (x, y) = if swap { (vb, va) } else { (va, vb) };
+        let got = SortingAttr::Name.cmp_bench_arg_names(&NAMES[i], &NAMES[j]);
+        if !x.is_nan() && !y.is_nan() {
+            if x < y { assert!(got == Ordering::Less, "float arguments sort by value"); }
+            if x > y { assert!(got == Ordering::Greater, "float arguments sort by value"); }
+        } else {
+            assert!(got == NAMES[i].as_bytes()[0].cmp(&NAMES[j].as_bytes()[0]), "an argument without a numeric value (NaN) is ordered as text, it does not tie with numbers");
+        }
+        kani::cover!(x.is_nan() && !y.is_nan() && swap); kani::cover!(x < y); kani::cover!(x.is_infinite() && y < 0.0);
+    }
     /// location order of arguments = declaration order (their slots in the names slice)
     #[kani::proof]
     #[kani::solver(kissat)]
@@ -308,6 +335,8 @@ def build(S: Sources) -> Unit:
     hs = [
         KaniHarness("verif_c16::int_arg_names_by_value", "bounded", bound="integer names of 1-2 digits with optional minus sign (every pair of different value)",
                     covers="SortingAttr::cmp_bench_arg_names (integer arguments, name and kind attributes)"),
+        KaniHarness("verif_c16::float_arg_names_by_value", "bounded", bound="two one-letter names whose float value is any pair of f64 (NaN and infinities included); str::parse::<f64> replaced by a table",
+                    covers="SortingAttr::cmp_bench_arg_names (float arguments, NaN fallback)"),
         KaniHarness("verif_c16::location_is_declaration_order", "bounded", bound="three argument slots", covers="SortingAttr::cmp_bench_arg_names (location)"),
         KaniHarness("verif_c16::tie_breakers", "complete", covers="SortingAttr::with_tie_breakers"),
         *[KaniHarness(f"verif_c16_sort::runs_fixed_{la}_{lb}", "bounded", bound=f"a run of {la} digits against a run of {lb} digits (all digit values, leading zeros included)",
@@ -323,7 +352,7 @@ def build(S: Sources) -> Unit:
                       stubs_note=["<f64 as FromStr>::from_str -> always Err in the argument-name harnesses (dec2flt is outside CBMC's reach): float names are NOT covered",
                                   "util::sort::natural_cmp -> recorder in the argument-name harnesses (it must not be reached for integers of different value); natural_cmp itself is checked in the thorough tier"]),
         undecided_clauses=[
-            "float and mixed integer/float argument names (str::parse::<f64> is far outside what CBMC decides in reasonable time)",
+            "which strings parse as floats (str::parse::<f64> is far outside what CBMC decides; it is replaced by a table of symbolic values), mixed integer/float pairs",
             "longer names, non-ASCII names, transitivity in general",
             "the leaf comparisons below EntryTree::cmp_by_attr (EntryTree::kind, cmp_display_name, location, entry_addr: ASSUMED to return the node's kind / name order / (file,line,column) / address), generic constants' own ordering, --sortr as exact reverse of the comparison (the flag handling IS covered: --sortr sets reverse_sort and the attribute; its use in the sort call is not), and that sorting only permutes (std sort)",
         ],
